@@ -1,7 +1,7 @@
 CHECK = dict(
     level='model_checking', engine='vsched',
     parts=[dict(name='c06', src=['harness/c06_fibre.c'], cflags=['-DPROP=6', '-Wno-format-truncation'], workers=64,
-                objs=[('@VERIF@/harness/c06_scn.c', ['-fsanitize=thread'])],
+                objs=[('@VERIF@/harness/c06_scn.c', ['-fsanitize=thread', '-Dmemset=vs_memset', '-Dmemcpy=vs_memcpy', '-Dmemmove=vs_memmove'])], objs_lib=True,
                 deadline=dict(quick=400, thorough=3000))],
     rule='stateless exploration of the real fibre.c/list.c/messageq.c (compiled with -fsanitize=thread against engine/vsched.c): a '
          'scripted main loop (scheduler passes + main-context fibre_run/fibre_kill/fibre_run_atomic) over an event-handling fibre, a '
